@@ -95,7 +95,7 @@ def main(argv=None):
     quals = functions_of(pid)
     canq = canaries_of(pid)
     broken, undecided = [], []
-    if not quals:
+    if not quals and (meta["level"] == "proof" or not meta.get("bounded_parts")):
         broken.append("no function under contract is tagged with this property")
     results = [run.verify_function(q) for q in quals]
     cres_fn = [run.verify_function(q) for q in canq]
@@ -190,6 +190,10 @@ def main(argv=None):
                     vcs=len(l), seconds=round(sum(v.seconds for v in l), 3), clause=l[0].text, where=l[0].loc)
                for nm, l in sorted(byname.items())]
     level = meta["level"]
+    # exploration-style counts of the bounded side checks (never counted as proved)
+    side_cases = sum((s_.get("summary") or {}).get("cases", 0) + (s_.get("summary") or {}).get("scenarios", 0) for s_ in side)
+    side_nontrivial = sum((s_.get("summary") or {}).get("nontrivial", 0) for s_ in side)
+    side_samples = [x for s_ in side for x in ((s_.get("summary") or {}).get("samples") or [])][:8]
     ev = dict(
         property_id=pid, tier=tier, seed=seed, level=level,
         coverage=dict(
@@ -208,7 +212,11 @@ def main(argv=None):
             undecided_subclauses=meta.get("undecided_subclauses", []),
             bounded_parts=meta.get("bounded_parts", []),
             explanation=meta.get("explanation", ""),
-            samples=samples[:400],
+            samples=(samples[:400] if samples else side_samples) if level == "proof" else (side_samples + samples[:60]),
+            evaluations=side_cases + len(vcs), distinct_nontrivial=side_nontrivial + n_dis,
+            rule="bounded part: cases generated by replay/battery.py (seeded configurations; non-trivial = the tree grew beyond its root) and "
+                 "replay/bounded.py (exhaustive small inputs; non-trivial = the function had to choose / repair); proof part: one case per "
+                 "verification condition, non-trivial = discharged obligation",
             notes=sorted({n for r in results for n in r.notes}),
         ),
         assumptions=meta.get("assumptions", []) + spec.TRUSTED,
